@@ -5,7 +5,7 @@ patch=$1; shift
 cd /repo && git status --short | grep -v '^??' && { echo "repo dirty"; exit 2; }
 git -C /repo apply "$patch" || { echo "patch does not apply"; exit 2; }
 for p in "$@"; do
-  (cd /verif && python3 tools/vp.py check $p --tier quick 2>&1 | grep -E "VIOLATION|KNOWN-FINDING|^check |BROKEN" | head -8; echo "rc=${PIPESTATUS[0]}")
+  (cd /verif && VERIF_EVID=/verif/.build/seed-evidence python3 tools/vp.py check $p --tier quick 2>&1 | grep -E "VIOLATION|KNOWN-FINDING|^check |BROKEN" | head -8; echo "rc=${PIPESTATUS[0]}")
 done
 git -C /repo checkout -- .
 git -C /repo status --short | grep -v '^??'
